@@ -38,6 +38,10 @@ func newMySQLUndoInsertExecutor(sqlUndoLog undo.SQLUndoLog) *mySQLUndoInsertExec
 
 // ExecuteOn execute insert undo logic
 func (m *mySQLUndoInsertExecutor) ExecuteOn(ctx context.Context, dbType types.DBType, conn *sql.Conn) error {
+	if m.sqlUndoLog.AfterImage == nil || len(m.sqlUndoLog.AfterImage.Rows) == 0 {
+		// the statement inserted no row: nothing to compensate
+		return nil
+	}
 
 	if err := m.BaseExecutor.ExecuteOn(ctx, dbType, conn); err != nil {
 		return err
